@@ -79,6 +79,9 @@ func init() {
 			c.Fail("harness.setup", "%v", v.Err)
 			return
 		}
+		if spun(c, "C08", v) {
+			return
+		}
 		if len(cuts) > 0 || sizes[0] < 5 || len(sizes) > 1 {
 			c.Nontrivial(fmt.Sprintf("%s|cuts=%v|sizes=%v|eof=%v", p.Name, cuts, sizes, eofWithData))
 		}
@@ -139,6 +142,9 @@ func init() {
 		}})
 		if v.Err != nil {
 			c.Fail("harness.setup", "%v", v.Err)
+			return
+		}
+		if spun(c, "C08", v) {
 			return
 		}
 		if len(cuts) > 0 {
